@@ -99,3 +99,77 @@ Fixpoint first_true (l : list bool) : nat :=
   | true :: _ => 0
   | false :: r => if existsb (fun b => b) r then S (first_true r) else 0
   end.
+
+(* ------------------------------------------------------------------------------ *)
+(* vocabulary of the array programs translated from lcm/argmax.py (Gen/Argmax.v)   *)
+(* ------------------------------------------------------------------------------ *)
+
+(* sorted(set(range(rank)) - set(axes)) *)
+Definition front_axes (rank : nat) (axes : list nat) : list nat :=
+  filter (fun k => negb (existsb (Nat.eqb k) axes)) (seq 0 rank).
+
+(* a.transpose of (front_axes followed by axes) *)
+Definition transpose_to {A : Type} (d : A) (a : arr A) (perm : list nat) : arr A :=
+  transpose d perm a.
+
+(* a.reshape(a.shape[:-n] + (-1,))    (n >= 1) *)
+Definition reshape_flatten_last {A : Type} (a : arr A) (n : nat) : arr A :=
+  let r := length (shape a) in
+  reshape (firstn (r - n) (shape a) ++ [size (skipn (r - n) (shape a))]) a.
+
+(* positions along the last axis *)
+Definition last_dim (sh : list nat) : nat := last sh 0.
+
+(* jnp.max(a, axis=-1, keepdims=True, initial=initial, where=where) on values:
+   masked-out entries do not take part; [initial] (None: no initial) takes part *)
+Definition max_last_keepdims (a : arr val) (initial : option val) (where_ : option (arr bool))
+  : arr val :=
+  let front := removelast (shape a) in
+  let n := last_dim (shape a) in
+  tabulate (front ++ [1]) (fun idx =>
+    let outer := removelast idx in
+    fold_right vmax (match initial with Some v => v | None => VNegInf end)
+      (map (fun k =>
+              let pos := outer ++ [k] in
+              match where_ with
+              | Some w => if get false w pos then get VUndef a pos else VNegInf
+              | None => get VUndef a pos
+              end) (seq 0 n))).
+
+(* numpy broadcasting of two arrays of equal rank: a dimension of size 1 is repeated *)
+Definition bshape (s1 s2 : list nat) : list nat :=
+  zip_with (fun x y => if x =? 1 then y else x) s1 s2.
+Definition bget {A : Type} (d : A) (a : arr A) (idx : list nat) : A :=
+  get d a (zip_with (fun s i => if s =? 1 then 0 else i) (shape a) idx).
+Definition amap2_bcast {A B C : Type} (da : A) (db : B) (f : A -> B -> C)
+           (a : arr A) (b : arr B) : arr C :=
+  tabulate (bshape (shape a) (shape b)) (fun idx => f (bget da a idx) (bget db b idx)).
+
+(* a == b on values (NaN/undefined compares false, -inf == -inf) *)
+Definition veqb_num (x y : val) : bool :=
+  match x, y with
+  | VNegInf, VNegInf => true
+  | VFin p, VFin r => Qeqb p r
+  | _, _ => false
+  end.
+Definition arr_eq (a b : arr val) : arr bool := amap2_bcast VUndef VUndef veqb_num a b.
+Definition arr_and (a b : arr bool) : arr bool := amap2_bcast false false andb a b.
+(* bool array * int array *)
+Definition arr_mask_mul (m : arr bool) (i : arr nat) : arr nat :=
+  amap2_bcast false 0 (fun b k => if b then k else 0) m i.
+
+(* jnp.argmax(mask, axis=-1) of a boolean array: first True, 0 if none *)
+Definition argmax_last (m : arr bool) : arr nat :=
+  let front := removelast (shape m) in
+  let n := last_dim (shape m) in
+  tabulate front (fun outer => first_true (map (fun k => get false m (outer ++ [k])) (seq 0 n))).
+
+Definition arange (n : nat) : arr nat := vec (seq 0 n).
+(* x.reshape(-1, 1, ..., 1) with k ones, of a 1-d array *)
+Definition reshape_col {A : Type} (a : arr A) (k : nat) : arr A :=
+  reshape (length (data a) :: repeat 1 k) a.
+Definition broadcast_to {A : Type} (d : A) (a : arr A) (sh : list nat) : arr A :=
+  tabulate sh (fun idx => bget d a idx).
+
+Definition segment_max_nat (a : arr nat) (ids : list nat) (num : nat) : arr nat :=
+  segment_reduce 0 Nat.max 0 a ids num.
